@@ -72,6 +72,27 @@ def run(ctx):
                 "argv": base + ["python3", "harness/children/child.py", "eager"], "stdin_hex": hx(data)[:400000], "stdin_stalls_at_byte_offsets": pauses, "status": st,
                 "stderr": err.decode(errors="replace")[-300:]},
                 summary=f"{tool} with an identity child and stdin stalling around the queue-page multiples: {what}")
+    # the bytes handed to the child add up to exact multiples of the 8 KiB stream buffer (8191 / 8192 / 8193, 3 x 8192), the input
+    # then idles before it ends: the collector is caught up with an empty queue when end of input arrives
+    for tool, base in (("foldfilter", ["foldfilter", "-w", "63"]), ("foldfilter", ["foldfilter"]), ("cache", ["cache"])):
+        for total in (8191, 8192, 8193, 3 * 8192):
+            ls, left, i = [], total, 0
+            while left > 0:
+                n = min(left, 64) if tool != "cache" else min(left, 57 + i % 7)
+                body = (b"%06d" % i + b"abcdefghijklmnopqrstuvwxyz0123456789ABCDEFGHIJKLMNOPQRSTUVWXYZ-+")[:max(n - 1, 0)]
+                ls.append(body)
+                left -= len(body) + 1
+                i += 1
+            data = b"".join(l + b"\n" for l in ls)
+            st, out, err, trace = wrappers.run_traced(ctx, base, data, ["eager"], timeout=60, linger_s=0.7)
+            ctx.count("wrapper-buffer-multiple", 1, [(tool, tuple(base), total)])
+            if st != 0 or out != data:
+                what = "did not terminate (deadlock)" if st == "HANG" else f"status {st}, {len(out)} of {len(data)} output bytes"
+                pvlib.report_violation(ctx, f"wrapper-bufmult:{tool}:{total}", {
+                    "argv": base + ["python3", "harness/children/child.py", "eager"], "stdin_hex": hx(data), "stdin_stays_open_s": 0.7, "status": st,
+                    "stderr": err.decode(errors="replace")[-300:]},
+                    summary=f"{' '.join(base)} with an identity child, {total} bytes handed to the child, input idle before it ends: {what}")
+                break
 
 
 def perturbed(ctx):
@@ -103,9 +124,10 @@ def replay(ctx, rp):
         st, out, err = pvlib.run_tool([ctx.bin(rp["argv"][0])] + rp["argv"][1:], pvlib.unhx(rp["stdin_hex"]), env=env, timeout=40)
         print("status", st, "stdout", out, err[-300:])
         return
-    if "argv" in rp and "stdin_stalls_at_byte_offsets" in rp:
+    if "argv" in rp and ("stdin_stalls_at_byte_offsets" in rp or "stdin_stays_open_s" in rp):
         i = rp["argv"].index("python3")
-        st, out, err, trace = wrappers.run_traced(ctx, rp["argv"][:i], pvlib.unhx(rp["stdin_hex"]), rp["argv"][i + 2:], timeout=120, pauses=rp["stdin_stalls_at_byte_offsets"])
+        st, out, err, trace = wrappers.run_traced(ctx, rp["argv"][:i], pvlib.unhx(rp["stdin_hex"]), rp["argv"][i + 2:], timeout=120,
+                                                  pauses=rp.get("stdin_stalls_at_byte_offsets"), linger_s=rp.get("stdin_stays_open_s", 0))
         print("status", st, "stdout bytes", len(out), err[-300:])
         return
     if "argv" in rp:
